@@ -6,6 +6,8 @@
    batch >= 1 and concurrency >= 1, through the partition arithmetic of
    Task.load ([partitions_tile]). *)
 From Coq Require Import List NArith Bool.
+From Shovel Require Import Base.Outcome.
+From Shovel Require Model.Client Model.ClientSpec Proofs.BridgeClientTaskP.
 From Shovel Require Import Model.TaskTypes Model.TaskDb Model.Task Model.TaskNode Model.TaskSys
   Model.TaskSpec Model.TaskWitness Proofs.TaskArithP Proofs.TaskLegacyP Proofs.C01P Proofs.TaskLiveP.
 Import ListNotations.
@@ -108,6 +110,27 @@ Theorem growth_reaches_head : forall c ch,
     /\ outside c (iter (hstepf c ch) n d) = outside c d.
 Proof. exact reach_lemma. Qed.
 Print Assumptions growth_reaches_head.
+
+(* BRIDGE to the client model (Model/Client.v, C07).  The theorems above
+   assume [reply_ok]: every delivered partition of a load is numbered as
+   requested.  For every partition answered by the modelled jrpc2 client this
+   is a THEOREM: whenever [Client.get p s l w] returns [Ok bs] -- for every
+   plan, range and family of replies [w] -- the abstraction of [bs] to the task
+   model's blocks ([abs hid rowsf]: numbers kept, hashes mapped to ids by any
+   [hid] sending exactly the empty hash to 0, everything else of a block
+   reduced to the rows [rowsf] the integration derives from it) satisfies
+   [seg_numbered (s, l)] (by C07 get_ok_exact_numbers), hence a load all of
+   whose partitions are answered by the client (or fail) satisfies [reply_ok]. *)
+Theorem client_partition_numbered : forall hid rowsf p s l w bs,
+  Client.get p s l w = Ok bs ->
+  seg_numbered (s, l) (SegOk (map (BridgeClientTaskP.abs hid rowsf) bs)).
+Proof. exact BridgeClientTaskP.get_seg_numbered. Qed.
+Print Assumptions client_partition_numbered.
+
+Theorem client_load_reply_ok : forall hid rowsf ps rs,
+  Forall2 (BridgeClientTaskP.client_answer hid rowsf) ps rs -> reply_ok (RGet ps) (RSegs rs).
+Proof. exact BridgeClientTaskP.client_reply_ok. Qed.
+Print Assumptions client_load_reply_ok.
 
 (* The pinned arithmetic part = batch/conc: batch 1 x concurrency 4 yields no
    partition and the step panics on blocks[0]. *)
